@@ -132,6 +132,21 @@ def nested_nonempty(data):
     return walk(data.extra, 0)
 
 
+def add_null_entries(val, depth=0):
+    """Insert a None-valued key into every nested dictionary (depth >= 1) reachable from ``val``."""
+    n = 0
+    if isinstance(val, dict):
+        for item in list(val.values()):
+            n += add_null_entries(item, depth + 1)
+        if depth >= 2:
+            val["unset_entry"] = None
+            n += 1
+    elif isinstance(val, list):
+        for item in val:
+            n += add_null_entries(item, depth + 1)
+    return n
+
+
 def check_object(spec, tmpdir):
     from iodata import dump_one
     from iodata.utils import PrepareDumpError, PrepareDumpWarning
@@ -144,6 +159,11 @@ def check_object(spec, tmpdir):
         return [], ["degenerate_basis_skipped"], False
     data = built["data"]
     labels = list(built["labels"])
+    if fmt == "json_qcschema" and spec["repeat"] != 2:
+        # null entries at any depth of the caller's pass-through dictionaries (QCSchema files are
+        # full of them); they are the caller's data like everything else
+        if add_null_entries(data.extra):
+            labels.append("null_entries_in_nested_dicts")
     path = os.path.join(tmpdir, OBJ.filename(fmt, "c09"))
     fmtarg = {"fmt": "json_qcschema"} if fmt == "json_qcschema" else {}
     before = snap_object(data, spec["preread"])
